@@ -70,6 +70,49 @@ func rtKey(i int) caching.Key {
 }
 
 const preIndex = 900
+const varyBase = 500 // indices from here on are filled under a changed key
+
+func rtKeyOf(i int) caching.Key {
+	if i >= varyBase && i < preIndex {
+		return rtVaryKey(i)
+	}
+	return rtKey(i)
+}
+
+// the key a fill under "Vary: Origin" ends up with (the server changes the writer's key before the head is written)
+func rtVaryKey(i int) caching.Key {
+	u, _ := url.ParseRequestURI("/rt/" + strconv.Itoa(i))
+	r := &http.Request{Method: "GET", Host: "rt.test", URL: u, Header: http.Header{"Origin": []string{"https://o.test"}}}
+	for _, k := range caching.KeysFromRequest(r) {
+		if k.HasFullOrigin() {
+			return k
+		}
+	}
+	return caching.KeysFromRequest(r)[0]
+}
+
+func rtFillVary(s caching.Storage, i int, size int64) (bool, error) {
+	if f, _, _, err := s.Get(context.Background(), []caching.Key{rtVaryKey(i)}); err == nil && f != nil {
+		f.Close()
+		return false, nil // the entry is on disk
+	}
+	w := s.GetWriter(rtKey(i), false, nil)
+	if w == nil {
+		return false, nil
+	}
+	if err := w.ChangeKey(rtVaryKey(i)); err != nil {
+		return false, err
+	}
+	h := http.Header{"Content-Length": []string{strconv.FormatInt(size, 10)}, "Cache-Control": []string{"max-age=86400"}, "Vary": []string{"Origin"}}
+	w.WriteHeader(200, h)
+	if _, err := w.Write(make([]byte, size)); err != nil {
+		return false, err
+	}
+	if err := w.Close(); err != nil {
+		return false, err
+	}
+	return true, nil
+}
 
 func rtFill(s caching.Storage, i int, size int64) (bool, error) {
 	w := s.GetWriter(rtKey(i), false, nil)
@@ -89,7 +132,7 @@ func rtFill(s caching.Storage, i int, size int64) (bool, error) {
 }
 
 func rtHit(s caching.Storage, i int) bool {
-	f, _, _, err := s.Get(context.Background(), []caching.Key{rtKey(i)})
+	f, _, _, err := s.Get(context.Background(), []caching.Key{rtKeyOf(i)})
 	if err != nil || f == nil {
 		return false
 	}
@@ -218,21 +261,27 @@ func (c *limRtCase) Run() (sx.V, error) {
 	for _, st := range p.Steps {
 		switch st.Kind {
 		case "fill":
-			ok, err := rtFill(s, st.I, st.Size)
+			var ok bool
+			var err error
+			if st.I >= varyBase && st.I < preIndex {
+				ok, err = rtFillVary(s, st.I, st.Size)
+			} else {
+				ok, err = rtFill(s, st.I, st.Size)
+			}
 			if err != nil {
 				return sx.L(), err
 			}
 			t := time.Now().Unix()
 			time.Sleep(1100 * time.Millisecond)
 			if ok {
-				observe(LimOp{Kind: "add", Name: rtKey(st.I).FsName(), Size: st.Size, T: t}, rtKey(st.I).FsName())
+				observe(LimOp{Kind: "add", Name: rtKeyOf(st.I).FsName(), Size: st.Size, T: t}, rtKeyOf(st.I).FsName())
 			}
 		case "hit":
 			ok := rtHit(s, st.I)
 			t := time.Now().Unix()
 			time.Sleep(1100 * time.Millisecond)
 			if ok {
-				name := rtKey(st.I).FsName()
+				name := rtKeyOf(st.I).FsName()
 				observe(LimOp{Kind: "access", Name: name, Size: prev[name], T: t}, "")
 			}
 		case "quiet":
@@ -244,7 +293,7 @@ func (c *limRtCase) Run() (sx.V, error) {
 			}
 			observe(LimOp{}, "")
 		case "restart":
-			time.Sleep(2500 * time.Millisecond) // every access so far is flushed
+			time.Sleep(4200 * time.Millisecond) // every access so far is flushed (ATIME_FLUSH_INTERVAL=3)
 			observe(LimOp{Kind: "flush"}, "")
 			stop()
 			s = caching.NewDiskStorage("rt", dir, p.Max, discardLogger, time.Now)
@@ -262,6 +311,14 @@ func genLimRT(tier string, rng *Rng) []Case {
 		n = 192
 	}
 	var out []Case
+	// pinned: a cache filled exactly to its limit loses nothing; two accesses of one entry within one
+	// flush interval with another entry's in between, then a restart and pressure
+	out = append(out, &limRtCase{plan: RtPlan{Max: 65536, Pre: -1, Steps: []RtStep{{"fill", 0, 16384}, {"fill", 1, 16384}, {"fill", 2, 16384}, {"fill", 3, 16384},
+		{"quiet", 0, 0}, {"hit", 0, 0}, {"hit", 1, 0}, {"quiet", 0, 0}}}})
+	out = append(out, &limRtCase{plan: RtPlan{Max: 49152, Pre: -1, Steps: []RtStep{{"fill", 0, 16384}, {"fill", 1, 16384}, {"hit", 0, 0}, {"restart", 0, 0},
+		{"fill", 2, 16384}, {"fill", 3, 16384}, {"quiet", 0, 0}}}})
+	out = append(out, &limRtCase{plan: RtPlan{Max: 49152, Pre: -1, Steps: []RtStep{{"fill", varyBase, 16384}, {"fill", varyBase + 1, 16384}, {"fill", 2, 16384}, {"fill", 3, 16384},
+		{"quiet", 0, 0}, {"fill", 4, 16384}, {"quiet", 0, 0}}}})
 	for i := 0; i < n; i++ {
 		p := RtPlan{Max: int64(rng.Pick2([]int{16384, 65536})), Pre: -1}
 		size := func() int64 { return int64(1+rng.Intn(int(p.Max/1024/2))) * 1024 }
@@ -285,6 +342,9 @@ func genLimRT(tier string, rng *Rng) []Case {
 					idx = filled[rng.Intn(len(filled))]
 				} else {
 					next++
+					if rng.Chance(25, 100) {
+						idx += varyBase // filled under a changed key (Vary: Origin)
+					}
 					filled = append(filled, idx)
 				}
 				p.Steps = append(p.Steps, RtStep{Kind: "fill", I: idx, Size: size()})
